@@ -514,5 +514,5 @@ func (edb *EventDb) blobberSpecificRevenue(spus []dbs.StakePoolReward) error {
 }
 
 func mergeBlobberHealthCheckEvents() *eventsMergerImpl[dbs.DbHealthCheck] {
-	return newEventsMerger[dbs.DbHealthCheck](TagBlobberHealthCheck, withUniqueEventOverwrite())
+	return newEventsMerger[dbs.DbHealthCheck](TagBlobberHealthCheck, withHealthCheckMerged())
 }
